@@ -534,6 +534,10 @@ impl<I: Hash + Eq, A: Hash + Eq> Game<I, A> {
                     0 => Err(GameError::EmptyPlayer),
                     1 => {
                         let action = actions.pop().unwrap();
+                        // the same infoset can't have one action here and several elsewhere
+                        if player_num.ind(player_infosets).contains_key(&infoset) {
+                            return Err(GameError::ActionsNotEqual);
+                        }
                         match player_num.ind_mut(single_infosets).entry(infoset) {
                             hash_map::Entry::Occupied(ent) => {
                                 if ent.get() != &action {
@@ -554,6 +558,9 @@ impl<I: Hash + Eq, A: Hash + Eq> Game<I, A> {
                         )
                     }
                     _ => {
+                        if player_num.ind(single_infosets).contains_key(&infoset) {
+                            return Err(GameError::ActionsNotEqual);
+                        }
                         let info_ind = match player_num.ind_mut(player_infosets).entry(infoset) {
                             compact::Entry::Occupied(ent) => {
                                 let (ind, info) = ent.get();
